@@ -54,6 +54,16 @@ type c05Built struct {
 }
 
 func c05Sample(kind int, size uint32) mp4.Sample {
+	switch kind { // boundary-value kinds: durations and composition offsets at the edges of their 32-bit ranges
+	case 16:
+		return mp4.Sample{Dur: 0x80000000, Size: 1, Flags: mp4.SyncSampleFlags}
+	case 17:
+		return mp4.Sample{Dur: 0xffffffff, Size: 2, Flags: mp4.NonSyncSampleFlags, CompositionTimeOffset: 0x7fffffff}
+	case 18:
+		return mp4.Sample{Dur: 1, Size: 1, Flags: mp4.SyncSampleFlags, CompositionTimeOffset: -0x80000000}
+	case 19:
+		return mp4.Sample{Dur: 0, Size: 1, Flags: mp4.NonSyncSampleFlags}
+	}
 	s := mp4.Sample{Dur: uint32(1 + kind&1), Size: uint32(1 + (kind>>1)&1)}
 	if kind>>2&1 == 0 {
 		s.Flags = mp4.SyncSampleFlags
@@ -451,8 +461,8 @@ func runC05(c *vf.Ctx) {
 	} else {
 		c.SetBudget(4 * 60 * 1e9)
 	}
-	allKinds := []int{0, 1, 2, 3, 4, 5, 6, 7, 8, 9, 10, 11, 12, 13, 14, 15}
-	c.Rule = "explicit enumeration (DFS, every prefix checked) of all operation histories on a real MediaSegment: op = add sample (16 kinds = dur{1,2} x size{1,2} x {sync,non-sync} x cto{0,-1}) to track t in {1} or {1,2,3} through each API variant of the data class (full: AddFullSample/AddFullSampleToTrack; metadata-only + separately written data: AddSample/AddSampleToTrack/AddSamples; intervals: AddSampleInterval), or start a new fragment (<= 2 fragments); configurations = {single, multi-track} x data class x OptimizeTrun on/off x Encode/EncodeSW x extra {none, emsg, free, unknown-in-traf, uuid-in-moof, prft, 64-bit mdat header}. Each history is encoded, decoded by both decoders (GetFullSamples per track) and by an independent fragment reader, and compared with the added samples. Distinct = distinct encoded byte strings."
+	allKinds := []int{0, 1, 2, 3, 4, 5, 6, 7, 8, 9, 10, 11, 12, 13, 14, 15, 16, 17, 18, 19}
+	c.Rule = "explicit enumeration (DFS, every prefix checked) of all operation histories on a real MediaSegment: op = add sample (16 kinds = dur{1,2} x size{1,2} x {sync,non-sync} x cto{0,-1}, plus 4 boundary kinds: dur 2^31 / 2^32-1 / 0, cto +-2^31) to track t in {1} or {1,2,3} through each API variant of the data class (full: AddFullSample/AddFullSampleToTrack; metadata-only + separately written data: AddSample/AddSampleToTrack/AddSamples; intervals: AddSampleInterval), or start a new fragment (<= 2 fragments); configurations = {single, multi-track} x data class x OptimizeTrun on/off x Encode/EncodeSW x extra {none, emsg, free, unknown-in-traf, uuid-in-moof, prft, 64-bit mdat header}. Each history is encoded, decoded by both decoders (GetFullSamples per track) and by an independent fragment reader, and compared with the added samples. Distinct = distinct encoded byte strings."
 	type job struct {
 		cfg   c05Cfg
 		depth int
@@ -463,7 +473,7 @@ func runC05(c *vf.Ctx) {
 	if !thorough {
 		baseKinds = []int{0, 3, 5, 6, 9, 10, 12, 15} // each of the four attributes takes both values, all pairs covered
 	}
-	c.Bound = fmt.Sprintf("all histories of length <= %d over 16 sample kinds under all %d configurations (incl. extra boxes) and of length <= %d over %d sample kinds under the %d base configurations (no extra box)", depthAll, len(c05Configs(true)), depthBase, len(baseKinds), len(c05Configs(false)))
+	c.Bound = fmt.Sprintf("all histories of length <= %d over 20 sample kinds (16 small-value kinds + 4 with 32-bit boundary durations / composition offsets) under all %d configurations (incl. extra boxes) and of length <= %d over %d sample kinds under the %d base configurations (no extra box)", depthAll, len(c05Configs(true)), depthBase, len(baseKinds), len(c05Configs(false)))
 	var jobs []job
 	for _, cfg := range c05Configs(true) {
 		for sh := -1; sh < c05NrShards(cfg, allKinds); sh++ {
